@@ -1,6 +1,7 @@
 package checks
 
 import (
+	"regexp"
 	"bytes"
 	"context"
 	"encoding/json"
@@ -271,6 +272,8 @@ func c06Selection(r *core.Run, x *explore.X) {
 	}
 }
 
+var c06ErrPath = regexp.MustCompile(`(?:Error at "/|property ")([A-Za-z]+)`)
+
 func c06Decoding(r *core.Run, x *explore.X) {
 	format := explore.Pick(x, []string{"json", "urlencoded", "multipart", "multipart-json-parts"})
 	req := explore.Pick(x, c06Requireds)
@@ -327,11 +330,24 @@ func c06Decoding(r *core.Run, x *explore.X) {
 		if derr != nil {
 			d := cloneDetailAny(detail)
 			d["decode_error"] = derr.Error()
-			r.Fail(x, "decoder-fails-on-valid-encoding", sig, d)
+			r.Fail(x, "decoder-fails-on-valid-encoding [format="+format+"]", sig, d)
 		} else if !ref.Equal(normJSON(decoded), map[string]any(value)) {
 			d := cloneDetailAny(detail)
 			d["decoded"] = CanonJSON(normJSON(decoded))
-			r.Fail(x, "decoded-body-differs", sig, d)
+			// the format and the fields that came out wrong are the violation's identity
+			var wrong []string
+			dm, _ := normJSON(decoded).(map[string]any)
+			for _, k := range sortedKeys(value) {
+				if got, ok := dm[k]; !ok || !ref.Equal(got, value[k]) {
+					wrong = append(wrong, k)
+				}
+			}
+			for _, k := range sortedKeys(dm) {
+				if _, ok := value[k]; !ok {
+					wrong = append(wrong, "+"+k)
+				}
+			}
+			r.Fail(x, fmt.Sprintf("decoded-body-differs [format=%s fields=%s]", format, strings.Join(wrong, ",")), sig, d)
 		}
 	}
 	// (b) the verdict
@@ -363,7 +379,14 @@ func c06Decoding(r *core.Run, x *explore.X) {
 		if badInt {
 			clause = "field-that-is-not-text-of-its-type-accepted"
 		}
-		r.Fail(x, clause, sig, d)
+		// the format and the fields the error names are the violation's identity
+		fields := map[string]bool{}
+		if verr != nil {
+			for _, mm := range c06ErrPath.FindAllStringSubmatch(verr.Error(), -1) {
+				fields[mm[1]] = true
+			}
+		}
+		r.Fail(x, fmt.Sprintf("%s [format=%s fields=%s]", clause, format, strings.Join(sortedKeys(fields), ",")), sig, d)
 	}
 	_ = sort.Strings
 }
